@@ -385,6 +385,20 @@ class ProgBase(HookMixin, ContextMixin, Process):
                     world.cur().extra.setdefault('cb_excs', {}).setdefault(tag, []).append(exc)
                     raise exc
 
+            if mode == 'await_child':
+                # a coroutine callback that steps another process in its own task; it may well run after this process
+                # has terminated (scheduled by the last step)
+                child_prog, child_no = item[3], item[4]
+
+                async def callback(proc=self):  # noqa: F811
+                    world.cur().tr(pid, {'k': 'cb', 'tag': tag, 'cur': Process.current() is proc, 'state': proc.state.value})
+                    cpid = f'{proc.pid}/{child_no}'
+                    world.cur().extra.setdefault('parent', {})[cpid] = proc
+                    child = make_class(child_prog)(pid=cpid, loop=proc.loop)
+                    world.cur().extra.setdefault('children', []).append(child)
+                    await child.step_until_terminated()
+                    world.cur().tr(pid, {'k': 'cb-after-await-child', 'tag': tag, 'cur': Process.current() is proc, 'state': proc.state.value})
+
             self.call_soon(callback)
         elif kind == 'soon_parent':
             # schedule a callback on the process that launched / executed this one (on itself if there is none)
